@@ -3,8 +3,18 @@
 
    Both automata are built with the help of the dependency (subset construction, Minimize), so the
    agreement is certified per explored pattern, for ALL strings: both automata pass the same checker
-   against the same model expression, hence accept the same language (three-way). *)
+   against the same model expression, hence accept the same language (three-way).
+
+   UNIVERSAL (Reg/Followpos.v): emerge's own part of the direct route - nullable, firstpos, lastpos, followpos over the
+   n-ary syntax tree and the automaton on sets of positions - is modelled over the same tree shape and proved correct
+   for EVERY tree: the position automaton of (r)µ accepts exactly the language of r.  The proof goes through the
+   language [after n p] that may follow a position: L(n) = [nullable]ε + Σ_{p∈firstpos} char(p)·after(p), and
+   after(p) = [p∈lastpos]ε + Σ_{q∈followpos(p)} char(q)·after(q), both by structural induction.
+   PER PATTERN (gen/cases_C10fp_*.v): the tree dumped from the implementation is numbered left to right, its nullable /
+   firstpos / lastpos / followpos tables equal the model's, and the automaton ToDFA returns passes the certified check
+   against the tree's expression - hence is the position automaton of that tree (last theorem below). *)
 From Coq Require Import String List Bool NArith.
+From Verif Require Import Reg.Followpos Reg.FollowposRe.
 From Verif Require Import Base.CharSet Reg.Dfa Reg.Regex Reg.EquivCheck Reg.Pattern Reg.PatSem Reg.PatCheck.
 From VerifGen Require Import RuneGo.
 Import ListNotations.
@@ -55,4 +65,31 @@ Example position_automaton_examples :
     && matchb r3 [99] && matchb r3 [97;98;97;98;99] && negb (matchb r3 [97;98;97;98;97;98;99])
   | _, _, _ => false
   end = true.
+Proof. vm_compute. reflexivity. Qed.
+
+(* ---- the direct construction itself, for every syntax tree ---- *)
+Theorem position_automaton_accepts_exactly_the_language :
+  forall (r : node) (em : N), ~ In em (chars r) ->
+    forall w, ~ In em w -> (Followpos.accepts r em w = true <-> lang r w).
+Proof. exact position_automaton_correct. Qed.
+Print Assumptions position_automaton_accepts_exactly_the_language.
+
+Theorem tree_language_is_its_expression : forall n w, lang n w <-> matches (re_of n) w.
+Proof. exact (proj1 lang_re). Qed.
+Print Assumptions tree_language_is_its_expression.
+
+Theorem checked_automaton_is_the_position_automaton_of_its_tree :
+  forall d finals tree em fuel,
+    dfa_re_check d finals (re_of tree) fuel = true -> ~ In em (chars tree) ->
+    forall w, ~ In em w -> (EquivCheck.accepts d finals w = true <-> Followpos.accepts tree em w = true).
+Proof. exact checked_automaton_is_the_position_automaton. Qed.
+Print Assumptions checked_automaton_is_the_position_automaton_of_its_tree.
+
+(* non-vacuity: (a|b)*a?c - the tables of the model are those of the implementation (one-based), and the position
+   automaton accepts "abac" and "c" and rejects "ca" *)
+Example followpos_example :
+  let r := NCat (NCons (NStar (NAlt (NCons (NCat (NCons (NChar 97) NNil)) (NCons (NCat (NCons (NChar 98) NNil)) NNil))))
+                (NCons (NAlt (NCons NEmpty (NCons (NChar 97) NNil))) (NCons (NChar 99) NNil))) in
+  tables_agree r 61166 false [1;2;3;4]%nat [5]%nat [(1, [1;2;3;4]); (2, [1;2;3;4]); (3, [4]); (4, [5])]%nat
+  && Followpos.accepts r 61166 [97;98;97;99] && Followpos.accepts r 61166 [99] && negb (Followpos.accepts r 61166 [99;97]) = true.
 Proof. vm_compute. reflexivity. Qed.
